@@ -179,6 +179,23 @@ func kBuild(args []string) (string, string) {
 			}
 		}
 	}
+	// C03 soundness on the builder path: a Content-Length the CALLER declared that is not the decimal length of the content is
+	// reported (finding under warn, error under fail) whenever spec checking is on and no repair option may change the block
+	if oracle == "ok" && o.spec >= 1 && !o.fixsyn && !o.fixwf && res.errTag == "" {
+		for _, nv := range hdr {
+			if strings.EqualFold(nv[0], "Content-Length") && strings.TrimSpace(nv[1]) == nv[1] && nv[1] != strconv.Itoa(len(content)) {
+				reported := false
+				for _, t := range res.fnd {
+					if t == "length" {
+						reported = true
+					}
+				}
+				if !reported {
+					oracle = fmt.Sprintf("VIOL c03-sound builder: declared Content-Length %s for %d bytes of content is not reported", sanitize(nv[1]), len(content))
+				}
+			}
+		}
+	}
 	if res.rec != nil {
 		defer res.rec.Close()
 		// C02: truthfulness of what the builder added, judged on the serialized bytes
@@ -404,6 +421,10 @@ func genBuildCase(r *rng) bcase {
 			cl := strconv.Itoa(len(g.block))
 			if g.declLen != "" {
 				cl = g.declLen
+			}
+			if r.chance(1, 6) {
+				// lengths at and beyond the limits of the integer types
+				cl = pick(r, []string{"9223372036854775807", "9223372036854775808", "18446744073709551615", "18446744073709551616", "4294967296", "2147483648"})
 			}
 			c.hdr = append(c.hdr, [2]string{"Content-Length", cl})
 		}
